@@ -152,14 +152,13 @@ def build_case(rng, orders, gen):
         nb = pick_neighbour(rng, n)
         stmts.append(nb)
         plan.append({"kind": "neighbour", "ddl": nb})
-    # (statements without ';' are not combined with SET lines: on the pinned tree a statement that is still pending because its predecessor had
-    #  no ';' is dropped when a SET line follows - outside every property, see DESIGN 7.1 wave 9)
+    # (statements without ';' next to SET lines: a statement closed by a SET line was lost before fix F22)
     has_set = any(st.upper().startswith("SET ") for st in stmts)
-    if not has_set and len(stmts) >= 2 and rng.random() < 0.2 and all(st.lstrip().upper().startswith("CREATE ") for st in stmts) and not any("LIKE" in st.upper() for st in stmts):      # (SET lines do not start with CREATE)
+    if len(stmts) >= 2 and rng.random() < 0.2 and all(st.lstrip().upper().startswith(("CREATE ", "SET ")) for st in stmts) and not any("LIKE" in st.upper() for st in stmts):      # (SET lines do not start with CREATE)
         stmts = [st[:-1] if st.endswith(";") else st for st in stmts]          # the whole script without ';'
     for q in range(len(stmts) - 1):
         # a statement without ';', closed by the start of the next one (which begins a line with CREATE): nothing of it may be lost
-        if not has_set and rng.random() < 0.15 and stmts[q].endswith(";") and stmts[q + 1].lstrip().upper().startswith("CREATE ") and "LIKE" not in stmts[q].upper():
+        if rng.random() < 0.15 and stmts[q].endswith(";") and not stmts[q].upper().startswith("SET ") and stmts[q + 1].lstrip().upper().startswith(("CREATE ", "SET ")) and "LIKE" not in stmts[q].upper():
             stmts[q] = stmts[q][:-1]
     ddl = finish_script(stmts)
     if rng.random() < 0.4:
